@@ -33,6 +33,9 @@ class T(Base):
     f = sa.Column(sa.Float, nullable=False)
     g = sa.Column(sa.String)
     dd = sa.Column(sa.Date)
+    m = sa.Column(sa.Numeric(5, 2))
+    # a column whose name is not an attribute of the entity (unknown to the ORM, known to Core)
+    hidden_ = sa.Column("hidden_col", sa.Integer)
 
 
 class Region(Base):
@@ -50,7 +53,8 @@ class Country(Base):
     code = sa.Column(sa.Integer, nullable=False)
     # the one mandatory (NOT NULL) foreign key of the harness schema
     region_id = sa.Column(sa.ForeignKey("region.id"), nullable=False)
-    region = relationship("Region", back_populates="countries")
+    # NOT NULL key, so the mapping may legitimately carry the loader hint innerjoin=True
+    region = relationship("Region", back_populates="countries", innerjoin=True)
     authors = relationship("Author", back_populates="country")
 
 
